@@ -709,7 +709,7 @@ func (s *c14Scn) runPositioned(filtered bool, histSize int, n int, forced []int)
 			s.recoverDropped = false
 			if res.Recovered {
 				for _, p := range res.Publications {
-					s.clientPush(0, p.Delta, p.Data, stream[p.Offset-1], "recovered-publication")
+					s.clientPush(0, p.Delta, p.Data, stream[p.Offset-1], "stream-other/recovered-publication")
 					cpos = p.Offset
 				}
 				if cpos < uint64(len(stream)) {
@@ -748,13 +748,13 @@ func (s *c14Scn) collectLive(stream []uint64, cpos *uint64) {
 			s.bad = fmt.Sprintf("push with offset %d", p.Offset)
 			continue
 		}
-		where := "live"
+		where := "stream-other/live"
 		if s.afterRecover {
-			where = "first-live-after-recovery"
+			where = "stream-other/first-live-after-recovery"
 			if _, has := s.held[0]; !has {
-				where = "first-live-after-recovery/client-holds-nothing"
+				where = "stream-delta-after-recovery/client-holds-nothing"
 			} else if s.recoverDropped {
-				where = "first-live-after-recovery/filtered-tail"
+				where = "stream-delta-after-recovery/filtered-publications-stripped"
 			}
 		}
 		s.afterRecover = false
@@ -838,7 +838,7 @@ func (s *c14Scn) runUnpositioned(keep bool, history bool, n int) string {
 			s.jscript = append(s.jscript, fmt.Sprintf("pub payload=%d use_delta=%v deliver=%v", pid, ud, deliver))
 			got := s.drain()
 			for _, p := range got.pubs {
-				s.clientPush(0, p.Delta, p.Data, pid, "unpositioned-live")
+				s.clientPush(0, p.Delta, p.Data, pid, "unpositioned-other/live")
 			}
 		}
 	}
@@ -964,9 +964,9 @@ func (s *c14Scn) runMap(filtered bool, n int, forced []int) string {
 					s.clientRemove(key)
 					continue
 				}
-				where := "map-live"
-				if _, has := s.held[key]; !has && p.Delta {
-					where = "map-live/delta-for-a-key-the-client-was-never-given"
+				where := "map-other/live"
+				if filtered {
+					where = "map-delta-with-tags-filter"
 				}
 				s.clientPush(key, p.Delta, p.Data, byOffset[p.Offset], where)
 				everSeen[key] = true
@@ -1017,7 +1017,7 @@ func (s *c14Scn) runMap(filtered bool, n int, forced []int) string {
 				for _, p := range res.State {
 					var key int
 					_, _ = fmt.Sscanf(p.Key, "k%d", &key)
-					s.clientPush(key, p.Delta, p.Data, state[key], "map-state")
+					s.clientPush(key, p.Delta, p.Data, state[key], "map-other/state")
 				}
 				for _, p := range res.Publications {
 					var key int
@@ -1026,7 +1026,7 @@ func (s *c14Scn) runMap(filtered bool, n int, forced []int) string {
 						s.clientRemove(key)
 						continue
 					}
-					s.clientPush(key, p.Delta, p.Data, byOffset[p.Offset], "map-recovered")
+					s.clientPush(key, p.Delta, p.Data, byOffset[p.Offset], "map-other/recovered")
 				}
 			}
 			cpos = res.Offset
